@@ -1,1 +1,8 @@
-import MwVerif.Model.Path
+-- root of the library: everything `./check --setup` builds up front
+import MwVerif.Props.C12
+import MwVerif.Props.C15
+import MwVerif.Props.C16
+import MwVerif.Props.C17
+import MwVerif.Props.C18
+import MwVerif.Props.C19
+import MwVerif.Gen.SiteWF
